@@ -424,6 +424,9 @@ def run(ctx):
                 for n in walk_no_nested(parse.node))
     ck.expect(strip, 'C10-D3', parse.qual, 'surrounding whitespace stripped', 'input is not stripped', parse.loc())
 
+    from .common import url_decode_sites_rule
+    url_decode_sites_rule(ctx, 'C10-D3')
+
     # ------------------------------------------------------------------ D4
     up = repo.func(URL + ':uppercase_percent_encoding')
     subs = [c for c in U.calls(up.node) if dotted(c.func) == 're.sub']
